@@ -149,9 +149,8 @@ Definition compute_segments (sorted : list pair) : option (list Seg) :=
 (* ---- decoded format-4 table ---- *)
 Record T4 := mkT4 { segx2 : Z; endc : list Z; startc : list Z; deltas : list Z; roffs : list Z; gida : list Z }.
 
-(* i16::try_from(delta).unwrap_or_else(|_| delta.rem_euclid(0x10000).try_into().unwrap()) *)
-Definition delta_i16 (d : Z) : option Z :=
-  if in_s 16 d then Some d else chk_s 16 (d mod 65536).
+(* let delta = delta.rem_euclid(0x10000) as u16 as i16;   ("The idDelta arithmetic is modulo 65536") *)
+Definition delta_i16 (d : Z) : Z := wrap_s 16 (d mod 65536).
 
 Definition slice (l : list pair) (a n : nat) : list pair := firstn n (skipn a l).
 
@@ -175,7 +174,7 @@ Fixpoint f4_loop (ms : list pair) (n_segments i cur_n : nat) (segs : list Seg) :
       let ec := wrap_u 16 (fst en) in
       match id_delta s with
       | Some d =>
-          do d16 <- delta_i16 d ;;
+          let d16 := delta_i16 d in
           do r <- f4_loop ms n_segments (S i) cur_n tl ;;
           Some ((sc, ec, d16, 0) :: fst r, snd r)
       | None =>
@@ -352,7 +351,7 @@ Definition cmap12_group_end (limits : option (Z * Z)) (s e g : Z) : Z :=
   let end_code := e + 1 in
   match limits with
   | Some (max_char, glyph_count) =>
-      Z.min (Z.max 0 (glyph_count - g) + s) (Z.min end_code max_char)
+      Z.min (Z.max 0 (glyph_count - g) + s) (Z.min end_code (max_char + 1))   (* max_char is inclusive *)
   | None => end_code
   end.
 (* Cmap12Iter; cur_end = group.range.end of the current group (0 before the first) *)
